@@ -581,7 +581,7 @@ class Exec:
                 return r
             raise OutOfSubset('call %s(%s)' % (fname, ','.join(a.kind for a in args)))
         fn = self.eval(st, e.func)
-        args, kwargs = self._args(st, e)
+        args, kwargs = self._args(st, e, star=(fn.kind != 'func'))
         if fn.kind == 'func':
             return self.call_func(st, fn, args, kwargs)
         r = self._dispatch('call_value', st, e, fn, args, kwargs)
@@ -589,7 +589,7 @@ class Exec:
             raise OutOfSubset('call of %s value' % fn.kind)
         return r
 
-    def _args(self, st, e):
+    def _args(self, st, e, star=False):
         args = []
         for a in e.args:
             if isinstance(a, ast.Starred):
@@ -605,7 +605,11 @@ class Exec:
         kwargs = {}
         for k in e.keywords:
             if k.arg is None:
-                raise OutOfSubset('**kwargs in call')
+                # value(**mapping) - only in the call of a *value* (star=True: the `call_value` hooks know the key '**'): the mapping is handed over as a whole
+                if not star or '**' in kwargs:
+                    raise OutOfSubset('**kwargs in call')
+                kwargs['**'] = self.eval(st, k.value)
+                continue
             kwargs[k.arg] = self.eval(st, k.value)
         return args, kwargs
 
@@ -873,6 +877,14 @@ class Exec:
             # self.cache[key] = v: the updated container is stored back into the attribute of its (local) owner
             owner = self.eval(st, target_expr.value)
             r = self._dispatch('store_attr', st, target_expr, owner, target_expr.attr, newval)
+            if r is NotImplemented:
+                raise OutOfSubset('mutation through %s' % ast.unparse(target_expr)[:40])
+            self._rebind(st, target_expr.value, r)
+        elif isinstance(target_expr, ast.Subscript):
+            # res[i][k] = v: the updated inner container is stored back into its slot of the outer one, and so on up to a local
+            outer = self.eval(st, target_expr.value)
+            idx = self.eval(st, target_expr.slice)
+            r = self._dispatch('store_subscript', st, target_expr, outer, idx, newval)
             if r is NotImplemented:
                 raise OutOfSubset('mutation through %s' % ast.unparse(target_expr)[:40])
             self._rebind(st, target_expr.value, r)
